@@ -1,5 +1,5 @@
 @unit cw20
-@shim core.rs cw_utils.rs cw2.rs
+@shim core.rs cw_utils.rs cw2.rs std_adapters.rs
 @properties C01 C02 C13 C19
 
 // ===================================================================== extracted data types
@@ -621,10 +621,45 @@ pub proof fn lemma_no_balances_zero(s: Raw)
     lemma_sum_zero(s, w_u128("balance"@));
 }
 
-// ASSUMED LEAF (sort + dedup on Vec<&String> is outside Verus' reach): checked by the bounded Kani harness kani/validate_accounts.rs
-@fn contracts/cw20-base/src/contract.rs validate_accounts [assume]
+// sort + dedup go through E11 to shim functions carrying the ASSUMED std semantics (permutation, sorted, runs collapsed);
+// the body of validate_accounts itself is verified
+@fn contracts/cw20-base/src/contract.rs validate_accounts [closures: 1]
 @ensures C01.validate_accounts_distinct
     r is Ok ==> distinct_accounts(accounts@)
+@adapter map_collect_vec 1
+@closure_types 1
+    c: &Cw20Coin
+@closure 1 C01.validate_accounts_addr
+    (res: &String)
+    ensures *res == c.address
+@replace E11 "addresses.sort()" 1
+    vec_sort_strs(&mut addresses)
+@replace E11 "addresses.dedup()" 1
+    vec_dedup_strs(&mut addresses)
+@insert_before "addresses.dedup()" 1
+    let ghost sorted = addresses@;
+@insert_before "if addresses.len()" 1
+    proof {
+        broadcast use ax_str_le_antisym, ax_str_le_trans;
+        lemma_dedup_len(sorted);
+        if addresses@.len() == accounts@.len() {
+            // sorted without adjacent duplicates is pairwise distinct; the permutation carries that back to `accounts`
+            assert forall|i: int, j: int| 0 <= i < j < sorted.len() implies (#[trigger] sorted[i])@ != (#[trigger] sorted[j])@ by {
+                if sorted[i]@ == sorted[j]@ { assert(str_le(sorted[i]@, sorted[i + 1]@) && str_le(sorted[i + 1]@, sorted[j]@)); assert(sorted[i]@ != sorted[i + 1]@); }
+            }
+            let p = choose|p: Seq<int>| is_perm(p, accounts@.len() as int) && forall|i: int| 0 <= i < sorted.len() ==> #[trigger] sorted[i] == addrs0[p[i]];
+            assert forall|a: int, b: int| 0 <= a < b < accounts@.len() implies (#[trigger] accounts@[a]).address@ != (#[trigger] accounts@[b]).address@ by {
+                assert(perm_hits(p, accounts@.len() as int, a) && perm_hits(p, accounts@.len() as int, b));
+                let i = choose|i: int| 0 <= i < accounts@.len() && #[trigger] p[i] == a;
+                let j = choose|j: int| 0 <= j < accounts@.len() && #[trigger] p[j] == b;
+                assert(sorted[i] == addrs0[a] && sorted[j] == addrs0[b]);
+                assert(*addrs0[a] == accounts@[a].address && *addrs0[b] == accounts@[b].address);
+                if i < j { assert(sorted[i]@ != sorted[j]@); } else { assert(i != j); assert(sorted[j]@ != sorted[i]@); }
+            }
+        }
+    }
+@insert_before "addresses.sort()" 1
+    let ghost addrs0 = addresses@;
 @end
 
 @fn contracts/cw20-base/src/contract.rs create_accounts [loops: 1]
